@@ -23,6 +23,11 @@ func runC02(r *engine.Run) {
 	r.Rule("DOM-ext-nonempty", "see C01: an extension node with an empty path is never constructed (also a canonical-form condition)")
 	r.Rule("DEP-extchild", "every key installed as the child of an extension node (NewExtensionNode / insertExtension argument, store to NodeKey) is provably the key of a branch: returned by insertNode for a *FullNode, the child key of an existing extension, the result of insert started at an extension's child (with: the *FullNode arms of insertAtNode/insertAfterPathTraversal return insertNode of a *FullNode), or the key of a node type-tested to be a *FullNode on every path to the site. An extension over an extension or a leaf is a second encoding of the same content")
 	r.Rule("AGREE-mergepath", "see C01: a node that moves up when delete removes its parent gets exactly the path elements the parent consumed in front of its own path (otherwise the same content has another shape and root than the trie built by inserts alone)")
+	r.Rule("ERR-getnode", "see C17: a failed node lookup is never turned into success (a delete that reports success next to an absent sibling keeps a one-child branch: the same content with another shape and root)")
+	r.Rule("DOM-size", "see C01: a nil value or an empty encoding is routed to Delete and never stored (an entry that encodes to nothing is content the root would not determine)")
+	r.Rule("AGREE-fields", "see C14: writer and reader of each node encoding agree (the root commits to what can be decoded back)")
+	r.Rule("LOCK-mpt", "see C16: root, the stores' maps and level links and the collector's maps are accessed only with their owner's mutex held in the required mode (a writer under the read lock, or on a root read outside the lock, loses another writer's update)")
+	r.Rule("ORDER-critical", "see C16: Insert, Delete, MergeChanges and MergeDB are one critical section each, from the first read of the root to its last update")
 	r.NotDec = append(r.NotDec, "equality with an independent implementation for every content", "full history independence (canonical restructuring is value-level)", "collision resistance of the hash")
 	agreeHash(r, "AGREE-hash")
 	orderStamp(r, "ORDER-stamp")
@@ -31,6 +36,10 @@ func runC02(r *engine.Run) {
 	agreeMergePath(r, "AGREE-mergepath")
 	domExtNonEmpty(r, "DOM-ext-nonempty")
 	depExtChild(r, "DEP-extchild")
+	errGetNode(r)
+	domSize(r)
+	agreeFields(r)
+	mptLockDiscipline(r)
 }
 
 var trieNodeTypes = []string{"LeafNode", "FullNode", "ExtensionNode"}
